@@ -155,6 +155,14 @@ func expireNonces() {
 	}
 }
 
+// checkAuth panics if the connection has not been authorized.
+// It is for commands that do not go through sc.dbms.
+func (sc *serverConn) checkAuth() {
+	if _, ok := sc.dbms.(*DbmsUnauth); ok {
+		panic(notauth)
+	}
+}
+
 func (sc *serverConn) serverLog(args ...any) {
 	args = append([]any{"dbms server:", sc.remoteAddr + ":"}, args...)
 	log.Println(args...)
@@ -743,6 +751,7 @@ func cmdLibraries(ss *serverSession) {
 
 func cmdLog(ss *serverSession) {
 	s := ss.GetStr()
+	ss.sc.checkAuth() // before it counts towards the log limit
 	if msg := ss.sc.limitLog(s); msg != "" {
 		ss.sc.dbms.Log(msg)
 	}
@@ -819,6 +828,7 @@ func cmdQuery(ss *serverSession) {
 }
 
 func cmdReadCount(ss *serverSession) {
+	ss.sc.checkAuth()
 	ss.getTran()
 	ss.PutBool(true).PutInt(0) //TODO
 }
@@ -888,6 +898,7 @@ func cmdUpdate(ss *serverSession) {
 }
 
 func cmdWriteCount(ss *serverSession) {
+	ss.sc.checkAuth()
 	ss.getTran()
 	ss.PutBool(true).PutInt(0) //TODO
 }
